@@ -8,7 +8,7 @@
    that the correspondence check evaluates against the real ZddArena. *)
 From Coq Require Import String.
 From VP Require Import Base.Tactics Zdd.Model Zdd.Run Zdd.ProofsBase Zdd.ProofsOps Zdd.ProofsPwo Zdd.ProofsPwoTotal
-  Zdd.ProofsQuery Zdd.ProofsArena Zdd.ProofsSeq Zdd.ProofsStandalone.
+  Zdd.ProofsQuery Zdd.ProofsArena Zdd.ProofsSeq Zdd.ProofsStandalone Zdd.ProofsProduct Zdd.ProofsProductTotal.
 Close Scope string_scope.
 Open Scope list_scope.
 
@@ -71,9 +71,10 @@ Theorem C06_standalone_from_set : forall l, zwf (z_from_set l) /\ forall s, zmem
 Proof. exact z_from_set_ok. Qed.
 Theorem C06_standalone_singleton : forall v, zwf (z_single v) /\ forall s, zmem (z_single v) s <-> s = [v].
 Proof. exact z_single_ok. Qed.
-(* Not proved: Zdd::product (product_f). Its denotation { a ∪ b } needs a merge
-   of ascending lists; it is covered by the correspondence check and the explicit-set
-   oracle only, and C06's level_note says so. *)
+(* Zdd::product: { x ∪ y | x ∈ X, y ∈ Y }, with x ∪ y the merge of two ascending lists *)
+Theorem C06_standalone_product : forall x y, zwf x -> zwf y ->
+  exists z, z_product x y = Some z /\ zwf z /\ forall s, zmem z s <-> PROD (zmem x) (zmem y) s.
+Proof. exact z_product_ok. Qed.
 
 (* non-vacuity: a concrete sequence whose explicit semantics is defined and which
    exercises difference with a smaller left top variable, pwo, gc *)
